@@ -76,6 +76,11 @@ func (p *propC07) Gen(idx int) *Scenario {
 		ft := supportedFileTypes[r.Intn(len(supportedFileTypes))]
 		rs := genStream(r, StreamOpts{FT: ft, NData: r.Range(1, 20), Arch: 2, Narrow: true, Unknown: true, Dev: r.Chance(1, 3), Compressed: r.Chance(1, 3),
 			Unhosted: true, UTF8: r.Chance(1, 2), BigArr: true, Hdr14: r.Bool(), MaxFields: 8})
+		if r.Chance(1, 3) {
+			// any header Decode accepts must re-encode: minor protocol versions, profile versions
+			rs.Header.Proto = []byte{0x10, 0x21, 0x2F, 0x1F, 0x00, 0x0F, 0x25}[r.Intn(7)]
+			rs.Header.Profile = uint16(r.U64())
+		}
 		sc.Media = []Medium{{ID: "m0", Records: rs}}
 	default:
 		sc.Family = "mutant"
